@@ -20,29 +20,32 @@ Definition w_out : module := [w_fn (L "g") [w_arg (L "x") None; w_arg (L "y") No
 Definition w_call (im : module) (ips : list str) (om : module) (ops : list str) (w : option str) : c14_input :=
   mkC14 w_env false im ips om ops w [].
 
-(* 1. the output file has a module docstring: ast_parse re-emits it, so a node that was not addressed changes *)
+(* regressions of /repo 3e792de and 6d00342 (they were refutation witnesses before): a module docstring in the
+   output file is left alone, and a keyword-only input parameter is found *)
 Definition w_out_doc : module := SExpr (EConst (VStr (L "Doc."))) :: w_out.
-
-Lemma C14_refuted_lemma : ~ C14_statement.
-Proof.
-  intros H. specialize (H (w_call w_in [L "f.a"] w_out_doc [L "g.x"] None) ltac:(vm_compute; reflexivity)).
-  unfold C14_at in H. vm_compute in H. discriminate.
-Qed.
-
-(* 2. a keyword-only input parameter exists but is not found: the pair is not applied (AssertionError, no write) *)
 Definition w_in_kw : module := [w_fn (L "f") [] [] [w_arg (L "a") (Some (L "int"))] [Some (EConst (VInt 1))]].
 
-Lemma C14_refuted_kwonly :
-  C14_domain (w_call w_in_kw [L "f.a"] w_out [L "g.x"] None) = true
-  /\ run_C14 (w_call w_in_kw [L "f.a"] w_out [L "g.x"] None) = ([], Err AssertionError)
-  /\ addresses_resolve (w_call w_in_kw [L "f.a"] w_out [L "g.x"] None) = true.
-Proof. repeat split; vm_compute; reflexivity. Qed.
+Lemma C14_regression_docstring :
+  guard_C14 (w_call w_in [L "f.a"] w_out_doc [L "g.x"] None) = true
+  /\ C14_at_b (w_call w_in [L "f.a"] w_out_doc [L "g.x"] None) = true.
+Proof. split; vm_compute; reflexivity. Qed.
 
-(* 3. an assignment replaces a method argument: its value is written into the default slot counted from the
+Lemma C14_regression_kwonly :
+  guard_C14 (w_call w_in_kw [L "f.a"] w_out [L "g.x"] None) = true
+  /\ C14_at_b (w_call w_in_kw [L "f.a"] w_out [L "g.x"] None) = true.
+Proof. split; vm_compute; reflexivity. Qed.
+
+(* 1. an assignment replaces a method argument: its value is written into the default slot counted from the
       front and shifted by self, i.e. into ANOTHER argument's default *)
 Definition w_in_ann : module := [SAnnAssign (EName (L "a")) (EName (L "int")) (Some (EConst (VInt 3)))].
 Definition w_out_method : module :=
   [SClass (L "C") [] [w_fn (L "m") [w_arg (L "self") None; w_arg (L "a") None; w_arg (L "b") None] [EConst (VInt 4)] [] []] []].
+
+Lemma C14_refuted_lemma : ~ C14_statement.
+Proof.
+  intros H. specialize (H (w_call w_in_ann [L "a"] w_out_method [L "C.m.a"] None) ltac:(vm_compute; reflexivity)).
+  unfold C14_at in H. vm_compute in H. discriminate.
+Qed.
 
 Lemma C14_refuted_default_slot :
   C14_domain (w_call w_in_ann [L "a"] w_out_method [L "C.m.a"] None) = true
@@ -55,7 +58,7 @@ Lemma C14_refuted_default_slot :
      = Some [EConst (VInt 3)].
 Proof. repeat split; vm_compute; reflexivity. Qed.
 
-(* 4. the same input parameter used for two outputs with a template: the shared node is wrapped twice *)
+(* 2. the same input parameter used for two outputs with a template: the shared node is wrapped twice *)
 Definition w_env2 : sp_env :=
   mkEnv [(EName (L "int"), L "int"); (ESub (EName (L "Optional")) (EName (L "int")), L "Optional[int]")]
         [(L "Optional[int]", Ok (ESub (EName (L "Optional")) (EName (L "int"))));
@@ -71,6 +74,18 @@ Lemma C14_refuted_double_wrap :
   = Some [Some (ESub (EName (L "Optional")) (ESub (EName (L "Optional")) (EName (L "int"))));
           Some (ESub (EName (L "Optional")) (ESub (EName (L "Optional")) (EName (L "int"))))].
 Proof. vm_compute. reflexivity. Qed.
+
+(* 3. an input address through a nested class exists but is not found: the pair is not applied *)
+Definition w_in_nested : module :=
+  [SClass (L "C") [] [SClass (L "D") [] [SAssign [EName (L "z")] (EConst (VInt 1))] []] []].
+Definition w_out_z : module := [SAssign [EName (L "z")] (EConst (VInt 0))].
+
+Lemma C14_refuted_nested_input :
+  C14_domain (w_call w_in_nested [L "C.D.z"] w_out_z [L "z"] None) = true
+  /\ addresses_resolve (w_call w_in_nested [L "C.D.z"] w_out_z [L "z"] None) = true
+  /\ run_C14 (w_call w_in_nested [L "C.D.z"] w_out_z [L "z"] None) = ([], Err AssertionError)
+  /\ finding_class_C14 (w_call w_in_nested [L "C.D.z"] w_out_z [L "z"] None) = Some K14_input_lookup.
+Proof. repeat split; vm_compute; reflexivity. Qed.
 
 (* ------------------------------------------------------------------ non-vacuity *)
 Lemma C14_nonvacuous_lemma :
